@@ -22,7 +22,7 @@ CONSTANTS
   FAILBUDGET = 99
   TXHS = {"t1"}
   MAXH = 3
-  MAXOPS = 6
+  MAXOPS = 7
   FACTORS = {50}
   POWERS = {1}
   SLASHIDS = {"i1"}
